@@ -1,5 +1,4 @@
-use crate::map_decorator::{MapDecorator, MapDecoratorMarker};
-use crate::{InputTrait, Parser};
+use crate::{InputTrait, Parser, ParserErrorTrait};
 
 pub struct ToOptionParser<P> {
     parser: P,
@@ -11,28 +10,28 @@ impl<P> ToOptionParser<P> {
     }
 }
 
-impl<I, C, P> MapDecorator<I, C> for ToOptionParser<P>
+impl<I, C, P> Parser<I, C> for ToOptionParser<P>
 where
     I: InputTrait,
     P: Parser<I, C>,
 {
-    type OriginalOutput = P::Output;
     type Output = Option<P::Output>;
     type Error = P::Error;
 
-    fn decorated(
-        &mut self,
-    ) -> &mut impl Parser<I, C, Output = Self::OriginalOutput, Error = Self::Error> {
-        &mut self.parser
+    fn parse(&mut self, input: &mut I) -> Result<Self::Output, Self::Error> {
+        let original_position = input.get_position();
+        match self.parser.parse(input) {
+            Ok(ok) => Ok(Some(ok)),
+            Err(err) if err.is_soft() => {
+                // the optional part is missing, make sure nothing is consumed
+                input.set_position(original_position);
+                Ok(None)
+            }
+            Err(err) => Err(err),
+        }
     }
 
-    fn map_ok(&self, ok: Self::OriginalOutput) -> Result<Self::Output, Self::Error> {
-        Ok(Some(ok))
-    }
-
-    fn map_soft_error(&self, _err: Self::Error) -> Result<Self::Output, Self::Error> {
-        Ok(None)
+    fn set_context(&mut self, ctx: &C) {
+        self.parser.set_context(ctx)
     }
 }
-
-impl<P> MapDecoratorMarker for ToOptionParser<P> {}
